@@ -1,6 +1,38 @@
 import STProofs.EnergyGrad
-/-! # C06 — energy gradients: partials are dual parts (all orders); cubic total derivative = propagated partials (every N)
+import STProofs.CubicEnergyGrad
+import STProofs.QuinticEnergyGrad
+import STProofs.SepticEnergyGrad
+/-!
+# C06 — analytic energy gradients equal the true derivatives of the reported energy (every N, positive durations)
 
-Not proved: that the closed-form analytic gradients `getEnergyGradTimes / InnerPoints / Boundary` coincide with the
-propagated partials for every N (the correspondence check and the dual-number oracle decide that on the implementation);
-quintic/septic total derivative (needs the quintic/septic adjoint theorem). -/
+All three sentences of the property are theorems, for all three orders:
+
+* **partials** (`Cubic/Quintic/Septic.energySeg_dual`): `getEnergyPartialGradByCoeffs/ByTimes` are the partial
+  derivatives of the closed-form energy (which `C04` identifies with the integral);
+* **propagating the partials reproduces the total derivative** (`cubic_energy_total_derivative`,
+  `quintic_energy_total_derivative`, `septic_energy_total_derivative`): chain rule over dual numbers + the adjoint
+  theorems of C05;
+* **the closed-form analytic gradients are the total derivatives** (`cubic_energy_grad_exact`,
+  `quintic_energy_grad_exact`, `septic_energy_grad_exact`): for every tangent of durations, waypoints and boundary
+  states, `d(energy) = ⟨getEnergyGradTimes, dT⟩ + ⟨getEnergyGradInnerPoints & boundary .p, dP⟩ + ⟨boundary .v/.a/.j, d b⟩`.
+  Cubic: the adjoint variable of the energy is `M/3` in closed form (`lam_energy`, via `thomas_unique`), which also gives
+  `cubic_analytic_grads`: `propagateGrad(partials)` *is* the closed forms, component by component.  Quintic / septic:
+  envelope argument — the pull-back onto interior knot derivatives cancels by the optimality conditions
+  (`seg1_energy`, `segPairV_jump`, `quintic_KKT` / `septic_KKT`).
+-/
+open ST
+
+/-- cubic, in the property's words -/
+theorem C06_cubic {K : Type} [Field K] [LinearOrder K] [IsStrictOrderedRing K]
+    (hs Ps : List (Dual K)) (v0 vn : Dual K)
+    (hpos : ∀ h ∈ hs, 0 < h.re) (hne : hs ≠ []) (hP : Ps.length = hs.length + 1) :
+    let csR := Cubic.build (hs.map Dual.re) (Ps.map Dual.re) v0.re vn.re
+    let gb := Cubic.gradBoundary (hs.map Dual.re) csR
+    (Cubic.energy hs (Cubic.build hs Ps v0 vn)).du
+      = dot (gb.1.p :: (Cubic.gradInner csR ++ [gb.2.p])) (Ps.map Dual.du)
+        + dot (csR.map Cubic.gradTime) (hs.map Dual.du) + gb.1.v * v0.du + gb.2.v * vn.du :=
+  CubicEG.cubic_energy_grad_exact hs Ps v0 vn hpos hne hP
+
+/-- non-vacuity -/
+example : (∀ h ∈ ([⟨1, 1⟩, ⟨2, -1⟩] : List (Dual ℚ)), 0 < h.re) := by
+  intro h hh; simp at hh; rcases hh with rfl | rfl <;> norm_num
